@@ -410,6 +410,30 @@ class Body:
             stack.extend(self.succs(x))
         return seen
 
+    def paths(self, start=0, limit=10000, stop=None):
+        """Enumerate acyclic entry->return block paths (each loop body traversed at most once).
+
+        Returns a list of block lists; raises OverflowError beyond `limit` (callers fail closed).
+        """
+        out = []
+        stack = [(start, [start])]
+        while stack:
+            b, path = stack.pop()
+            if stop is not None and b in stop:
+                out.append(path)
+                continue
+            ss = self.succs(b)
+            if not ss:
+                out.append(path)
+                continue
+            for s_ in ss:
+                if s_ in path:
+                    continue  # back edge: do not unroll
+                stack.append((s_, path + [s_]))
+            if len(out) + len(stack) > limit:
+                raise OverflowError("more than %d paths in %s" % (limit, self.path))
+        return out
+
     # ------------------------------------------------------------ statements / calls
     def calls(self):
         if self._calls is None:
